@@ -1,4 +1,5 @@
 import PyTrie.Model.HexEff
+import PyTrie.Model.HexTrav
 /-! Layer E, second half: a *world* (database, tries, open batch, reference counts) and the way
     `HexaryTrie.set/delete/get/squash_changes/at_root`, `ScratchDB` and the pruning bookkeeping
     (`_prune_on_success`, `_prune_node`, `_complete_pruning`, `_set_root_node`, `_set_db_value`)
@@ -178,6 +179,19 @@ def opGet (T : TrieSt) (key : Bytes) (s : OpSt) : Except Exn Bytes :=
       match getT T.tree (nibs key) with
       | .ok v => .ok v
       | .error _ => .error .getErr
+
+/-- `traverse(path)` (`root? = some root_hash`) / `traverse_from(node, path)` (`root? = none`):
+    the root fetch (only for `traverse`), then the hashed nodes `_traverse_from` fetches on the way;
+    the first absent one is reported with the nibbles consumed to reach it -/
+def opTraverse (root? : Option Hash) (t : Node) (p : Path) (s : Store) : Except Exn TravOut :=
+  let rootMissing := match root? with
+    | some r => r != blankRootHash && !(s.contains r)
+    | none => false
+  if rootMissing then .error (.missingTraversalNode (root?.getD []) [])
+  else
+    match (traverseReads Hs t p []).find? (fun e => !(s.contains e.1)) with
+    | some (h, pre) => .error (.missingTraversalNode h pre)
+    | none => .ok (traverseOut t p)
 
 /-- multiset of counted references, as `regenerate_ref_count` walks them: the root, then hashed
     children of hashed (or root) nodes; embedded children are skipped altogether -/
